@@ -128,7 +128,7 @@ def run_models(pid, tier, seed):
         raise common.MachineryError("corpus theories failed to build: " + "; ".join(f"{i['name']}: {i.get('error','')[:300]}" for i in bad[:5]))
     res = common.run_engine(binary, [pid, "--tier", tier], timeout=6 * 3600)
     assume = MODEL_ASSUME_COMMON + MODEL_ASSUME.get(pid, [])
-    if pid in SWEEP_PROPS:
+    if pid in SWEEP_PROPS and not os.environ.get("VERIF_NO_SWEEP"):   # experiments only; registered commands never set it
         sw = run_sweep(pid, tier)
         res["curated_theories"] = res.get("theories", 0)
         res = merge_results([res, sw])
@@ -327,7 +327,8 @@ def run_c16(pid, tier, seed):
         raise common.MachineryError("corpus theories failed to build: " + "; ".join(i["name"] for i in bad))
     res = common.run_engine(binary, [pid, "--tier", tier], timeout=6 * 3600)
     res["curated_theories"] = len(res.get("per_theory", []))
-    res = merge_results([res, run_sweep(pid, tier)])
+    if not os.environ.get("VERIF_NO_SWEEP"):
+        res = merge_results([res, run_sweep(pid, tier)])
     return common.finish(pid, tier, "exploration", res, res.get("violations", []), t0,
                          ["the flat premise and conclusions of every rule family are read from the comment the compiler emits above each rule function (the property's own observation point); the comment is cross-checked against the index fields the function reads",
                           "rules with an empty premise are outside the quantifier (n = 0 atoms; documented in to_semi_naive as executed every iteration)",
